@@ -35,10 +35,12 @@ Definition lit_at_cs (name s : str) (i : nat) : bool :=
 Definition alt_search_cs (names : list str) (s : str) : bool :=
   existsb (fun i => existsb (fun n => boundary s i && lit_at_cs n s i && boundary s (i + length n)) names) (seq 0 (S (length s))).
 
-(* runner for the correspondence: per probe identifier [instruction?; macro?; register?; predefined name?] *)
+(* runner for the correspondence: per probe identifier [instruction?; macro?; register?; predefined name?;
+   does an operation (instruction or macro) start here? -- the look-ahead that ends the previous instruction] *)
 Definition run_vocab (c : list str * list str * list str * list str * list str) : list (list bool) :=
   let '(instrs, macros, regs, labels, probes) := c in
-  map (fun p => [alt_search instrs p; alt_search macros p; alt_search regs p; alt_search_cs labels p]) probes.
+  map (fun p => [alt_search instrs p; alt_search macros p; alt_search regs p; alt_search_cs labels p;
+                alt_search (instrs ++ macros) p]) probes.
 Definition obs_vocab_eqb (a b : option (list (list bool))) : bool :=
   match a, b with
   | Some x, Some y => list_eqb (list_eqb Bool.eqb) x y
